@@ -41,7 +41,9 @@ class SHADEDeme(AbstractDeme):
         epoch_counter = 0
         metaepoch_generations = []
         while epoch_counter < self._generations:
-            offspring = self._shade.run(self.current_population)
+            # Each generation is bred from the one before it (the first one from the current population).
+            parents = metaepoch_generations[-1] if metaepoch_generations else self.current_population
+            offspring = self._shade.run(parents)
 
             epoch_counter += 1
             metaepoch_generations.append(offspring)
